@@ -225,6 +225,7 @@ def evaluate(case, out):
             want[(bid, cid)] = list(dict.fromkeys(r))   # order of first mention
             if len(set(r)) < len(r):
                 out.cls("candidate-ranked-twice")
+        out.expect(len({c.id for c in cv}) == len(cv), "audit-reader-returns-several-records-for-one-ballot", lambda: [c.id for c in cv])
         out.expect(A == B, "readers-disagree", lambda: {"audit": A, "generator": B})
         out.expect(A == want, "audit-reader!=file", lambda: {"audit": A, "file": want})
         out.expect({c.name for c in contests} == {c["id"] for c in case["contests"]}, "contest-ids", lambda: [c.name for c in contests])
